@@ -73,6 +73,10 @@ type Run struct {
 }
 
 // Start parses the common flags and prepares a run for one property.
+// ThoroughBudget is the internal deadline of the thorough tier when --budget is not given; a checker may raise it before
+// calling Start (a run that meets its deadline reports exhaustive=false and exits 0 if it found nothing).
+var ThoroughBudget = 40 * time.Minute
+
 func Start(property, level string) *Run {
 	var (
 		tier   = flag.String("tier", envOr("VERIF_TIER", "quick"), "quick|thorough")
@@ -102,7 +106,7 @@ func Start(property, level string) *Run {
 		if r.Tier == Quick {
 			*budget = 8 * time.Minute
 		} else {
-			*budget = 40 * time.Minute
+			*budget = ThoroughBudget
 		}
 	}
 	r.Deadline = r.start.Add(*budget)
